@@ -367,6 +367,12 @@ def readActionsRefIf (r : CellR) (flag : Bool) : Outcome (List (Nat × Option Ce
 def actionsToMsgs (l : List (Nat × Option Cell)) : List RawMsg :=
   l.map fun (mode, m) => { mode := mode, msg := m.getD (.ordinary [] []) }
 
+/-- one entry of the highload dictionary as `PayloadHighload.UnmarshalTLB` reads it: mode byte, then the message ref -/
+def highloadEntry (x : List Bool × CellR) : Outcome RawMsg := do
+  let (mode, vr) ← x.2.readUint 8
+  let (m, _) ← vr.nextRef
+  pure { mode := mode, msg := m }
+
 /-- the decoder of the version applied to the body cell of an external message:
 `DecodeMessageV3/V4/HighloadV2` (via `SignedMsgBody`), `DecodeMessageV5`, `DecodeMessageV5Beta` -/
 def decodeBody (v : Version) (body : Cell) : Outcome Decoded :=
@@ -395,10 +401,7 @@ def decodeBody (v : Version) (body : Cell) : Outcome Decoded :=
       let (sub, r) ← r.readUint 32
       let (q, r) ← r.readUint 64
       let (kvs, _) ← readHashmapE (fun r => .ok r) 16 r
-      let ms ← kvs.mapM fun (_, vr) => do
-        let (mode, vr) ← vr.readUint 8
-        let (m, _) ← vr.nextRef
-        pure ({ mode := mode, msg := m } : RawMsg)
+      let ms ← kvs.mapM highloadEntry
       pure { ids := { subWallet := sub }, seqno := 0, validUntil := q / 4294967296, queryId := q, msgs := ms }
     | .v5r1 => do
       if r.bits.length < 32 then .err "can not decode sumtype"
